@@ -74,7 +74,14 @@ class _TState:
 class Scheduler:
     def __init__(self, files, funcs=None, schedule=(), max_decisions=4000):
         self.files = set(os.path.realpath(f) for f in files)
-        self.funcs = set(funcs) if funcs else None
+        # funcs: None = every function of the files; list/set of names; or dict name -> max number of
+        # line events per invocation that count as yield points (None = all)
+        if funcs is None:
+            self.funcs = None
+        elif isinstance(funcs, dict):
+            self.funcs = dict(funcs)
+        else:
+            self.funcs = {f: None for f in funcs}
         self.schedule = sorted(schedule)
         self.max_decisions = max_decisions
         self.threads = []              # _TState by tid
@@ -126,18 +133,28 @@ class Scheduler:
     def _tracer(self, st):
         files, funcs = self.files, self.funcs
 
-        def local(frame, event, arg):
-            if event == "line" and not self.free:
-                if self.keep_trace:
-                    self.trace.append((st.tid, os.path.basename(frame.f_code.co_filename), frame.f_lineno))
-                self.yield_point(st)
+        def make_local(limit):
+            left = [limit]
+
+            def local(frame, event, arg):
+                if event == "line" and not self.free:
+                    if left[0] is not None:
+                        if left[0] <= 0:
+                            return local
+                        left[0] -= 1
+                    if self.keep_trace:
+                        self.trace.append((st.tid, os.path.basename(frame.f_code.co_filename), frame.f_lineno))
+                    self.yield_point(st)
+                return local
             return local
 
         def glob(frame, event, arg):
             code = frame.f_code
             if code.co_filename in files or os.path.realpath(code.co_filename) in files:
-                if funcs is None or code.co_name in funcs:
-                    return local
+                if funcs is None:
+                    return make_local(None)
+                if code.co_name in funcs:
+                    return make_local(funcs[code.co_name])
             return None
         return glob
 
@@ -271,6 +288,8 @@ class CoopLock:
                     if self.owner is None:
                         self.owner = me
                         self.count = 1
+                        if self.log is not None:
+                            self.log.append(("acq", me))
                         return True
                 if not blocking:
                     return False
